@@ -26,7 +26,7 @@ ASSUMPTIONS = ['the exact counter in this file states the specification; quality
 REQUIRED = {t: ['rule:none', 'rule:middle', 'rule:strict', 'quality_equal_threshold', 'probes_at_C', 'probes_below_C',
                 'probes_above_C', 'filter_calls_monitored', 'accepts_monitored', 'mincount:1', 'mincount:2', 'mincount:3+',
                 'kmers_included', 'kmers_excluded_by_count'] for t in ('quick', 'thorough')}
-REQUIRED['quick'] = REQUIRED['quick'] + ['large_input_distinct_kmers', 'multi_sample_builds', 'multi_sample_parallel_builds', 'damaged_input_refused', 'auto_mincount_builds', 'auto_width64', 'auto_width128', 'same_file_in_both_columns', 'builds_with_default_options', 'inprocess_read_builds_compared']
+REQUIRED['quick'] = REQUIRED['quick'] + ['large_input_distinct_kmers', 'multi_sample_builds', 'multi_sample_parallel_builds', 'damaged_input_refused', 'auto_mincount_builds', 'auto_width64', 'auto_width128', 'same_file_in_both_columns', 'builds_with_default_options', 'inprocess_read_builds_compared', 'huge_gz_inputs']
 REQUIRED['thorough'] = REQUIRED['quick']
 RULES = {'none': 'no-filter', 'middle': 'middle', 'strict': 'strict'}
 
@@ -57,6 +57,9 @@ def plan(tier, seed, rng, scale):
                       'damage': ['length-mismatch', 'missing-plus', 'cut-gzip'][i % 3], 'chk': False})
     for i in range(int((60 if tier == 'quick' else 600) * scale)):
         descs.append({'k': 0, 'rc': True, 'rule': 'none', 'minc': 0, 'minq': 0, 'seed': rng.getrandbits(32), 'inprocess': True, 'chk': False})
+    for i, (nr, gz) in enumerate([(38000, True)] if tier == 'quick' else [(38000, True), (60000, True), (38000, False)]):
+        # millions of distinct k-mers in one sample, gzip-compressed: the counting filter at the scale the 0.1% clause is about
+        descs.insert(5 + i, {'k': 31, 'rc': True, 'rule': 'none', 'minc': 2, 'minq': 0, 'seed': rng.getrandbits(32), 'nreads': nr, 'gz': gz, 'chk': False})
     for i in range(int((16 if tier == 'quick' else 160) * scale)):
         descs.append({'k': [15, 21, 31, 33, 41, 63][i % 6], 'rc': rng.random() < 0.7, 'rule': 'strict', 'minc': 0, 'minq': 20,
                       'seed': rng.getrandbits(32), 'auto': True, 'chk': False})
@@ -407,6 +410,52 @@ def run_inprocess(desc, ctx, res):
     res.nontrivial.append(fingerprint(['inprocess', desc['seed']]))
 
 
+def run_hugegz(desc, ctx, res):
+    """Millions of distinct k-mers seen once (random reads), gzip-compressed or not, plus one long read present once in each file:
+    with --min-count 2 the long read's k-mers are all kept and fewer than 0.1% of the distinct k-mers slip in beside them."""
+    import gzip
+    k, rcmode = desc['k'], True
+    rng = random.Random(desc['seed'])
+    nreads, RL = desc['nreads'], 150
+    raw = os.urandom(nreads * RL)
+    seqtxt = raw.translate(bytes((b'ACGT'[i & 3]) for i in range(256))).decode()
+    planted = G.rseq(rng, 2000)
+    for j in (0, 1):
+        lines = []
+        half = range(j, nreads, 2)
+        for i in half:
+            lines.append('@r%d\n%s\n+\n%s\n' % (i, seqtxt[i * RL:(i + 1) * RL], 'I' * RL))
+        lines.insert(rng.randrange(len(lines) + 1), '@planted\n%s\n+\n%s\n' % (planted if j == 0 else M.rc(planted), 'I' * len(planted)))
+        data = ''.join(lines).encode()
+        if desc['gz']:
+            with gzip.open(ctx.path('h%d.fastq.gz' % j), 'wb', compresslevel=1) as fh:
+                fh.write(data)
+        else:
+            ctx.write('h%d.fastq' % j, data)
+    ext = '.fastq.gz' if desc['gz'] else '.fastq'
+    ctx.write('hlist', 'H\t%s\t%s\n' % (ctx.path('h0' + ext), ctx.path('h1' + ext)))
+    p = G.ska_build(ctx, ctx.path('huge'), ['-f', ctx.path('hlist'), '--min-count', 2, '--qual-filter', 'no-filter'], k, rcmode)
+    res.evals += 1
+    detail = {'k': k, 'reads': nreads, 'gz': desc['gz'], 'seed': desc['seed']}
+    if p.returncode != 0:
+        raise Inconclusive('huge build failed: ' + p.stderr[-200:])
+    hdr, T = G.nk(ctx, ctx.path('huge.skf'))
+    exp = set(M.build([planted], k, rcmode))
+    lost = [a for a in exp if a not in T]
+    extra = [a for a in T if a not in exp]
+    distinct = nreads * (RL - k + 1)
+    res.count('huge_input_distinct_kmers', distinct)
+    res.count('huge_input_extras', len(extra))
+    if lost:
+        res.violate('C12:huge:lost', 'k=%d: %d of %d k-mers present in both files are missing (%d random reads, gz=%s)' % (k, len(lost), len(exp), nreads, desc['gz']), detail)
+    elif len(extra) * 1000 >= distinct:
+        res.violate('C12:huge:collision-rate', 'k=%d: %d k-mers seen once were included among about %d distinct ones (>= 0.1%%; %d random reads, gz=%s)'
+                    % (k, len(extra), distinct, nreads, desc['gz']), detail)
+    else:
+        res.count('huge_gz_inputs' if desc['gz'] else 'huge_plain_inputs')
+        res.nontrivial.append(fingerprint(['huge', desc['seed']]))
+
+
 def run_multi(desc, ctx, res):
     """Several read-pair samples in one build (parallel for >= 10 samples and > 1 thread): every column must equal the
     dictionary of its own reads; samples share most of their k-mers, so state leaking from one sample's filter into the
@@ -485,6 +534,9 @@ def run_case(desc, ctx):
         return res
     if desc.get('inprocess'):
         run_inprocess(desc, ctx, res)
+        return res
+    if desc.get('nreads'):
+        run_hugegz(desc, ctx, res)
         return res
     k, rcmode, rule, minc, minq = desc['k'], desc['rc'], desc['rule'], desc['minc'], desc['minq']
     rng = random.Random(desc['seed'])
